@@ -601,5 +601,6 @@ func TestC09(t *testing.T) {
 		d := d
 		parallelCases(vlib.Scale(60, 1500), 16, func(i int) { c09Racing(ev, d, i) })
 	}
+	c09Churn(ev, vlib.DriverMemory)
 	finish(t, ev)
 }
